@@ -883,7 +883,12 @@ def control(ctx, bench, prog, policy, desc):
                 if key != stable_key:
                     stable_key, stable_since = key, now
                 others = prefetch_threads(bench.client)
-                need = 10.0 if others else 1.0
+                # a prefetch thread that sits in its own wait-for-a-free-slot loop (not inside a send) can only
+                # move on when a reader retires an extent - and the only reader is the parked worker
+                frames = sys._current_frames()
+                parked = all(frames.get(t.ident) is None
+                             or (paramiko_frames(frames[t.ident]) or ["?"])[-1] == "_prefetch_thread" for t in others)
+                need = 1.0 if (not others or parked) else 10.0
                 if bench.npackets() == n1 and now - stable_since >= need and not prog.done:
                     return blocked(ctx, bench, prog, desc, nreq, nresp, others)
             else:
@@ -952,6 +957,9 @@ def blocked(ctx, bench, prog, desc, nreq, nresp, others):
                          prefetch_done=fobj._prefetch_done)
             if ext and len(answered) == len(ext) and all(t == STATUS for t in answered.values()):
                 fact = "prefetch requests answered with STATUS are still counted as outstanding"
+            elif ext and len(answered) == len(ext):
+                fact = "prefetch responses were delivered but never dispatched to the file (read off the wire " \
+                       "by another call)"
             elif not ext and not fobj._prefetch_done:
                 fact = "no prefetch request outstanding but the prefetch was never marked done"
     elif delivered:
